@@ -18,7 +18,7 @@ import (
 var (
 	c05Clients = []string{"10.1.0.5", "10.2.0.5", "172.16.0.9", "2001:db8:1::5", "10.1.7.9"}
 	c05Options = []string{"", "10.1.3.0/24", "0.0.0.0/0", "10.2.3.0/24", "10.1.3.7/24", "172.16.5.0/24", "badfamily", "badlen", "2001:db8:1:2::/64", "::/0"}
-	c05Names   = []string{"dep.", "s0.", ecsFakeName}
+	c05Names   = []string{"dep.", "s0.", ecsFakeName, "odd."}
 )
 
 type c05Case struct {
@@ -174,6 +174,24 @@ func TestVerifC05(t *testing.T) {
 				}
 			}
 			f := c05Check(q, resp, calls, err, fresh, ferr, generic)
+			// A client that opted out must not be served an answer that
+			// upstream scoped to a subnet (scope > 0), whatever subnet it was
+			// asked for.
+			if pfx, present, valid := q.ecsPrefix(); len(f) == 0 && present && valid && pfx.Bits() == 0 && len(calls) == 0 && resp != nil && !strings.EqualFold(q.Name, ecsFakeName) {
+				for k := len(rig.up.calls) - 1; k >= 0; k-- {
+					cl := rig.up.calls[k]
+					cq := cl.req.Question[0]
+					if !strings.EqualFold(cq.Name, q.Name) || cq.Qtype != q.QType ||
+						fmt.Sprint(vdns.Section(cl.resp.Answer, false, false)) != fmt.Sprint(vdns.Section(resp.Answer, false, false)) {
+						continue
+					}
+					if _, o := ecsForwarded(cl.resp); o != nil && o.SourceScope > 0 && (o.Family == 1) == c05IsV4(q) {
+						f = vrt.F("ecs/declined-client-served-scoped-answer", "client %s opted out with %s and was answered from the cache with an answer upstream had scoped /%d (forwarded subnet %s)", q.Client, q.ECS, o.SourceScope, cl.subnet)
+					}
+
+					break
+				}
+			}
 			var fw []string
 			for _, cl := range calls {
 				fw = append(fw, cl.subnet)
